@@ -3,7 +3,7 @@ import SerfProofs.Props.C09Sites
 /-!
 C09 — no network input crashes a node.
 
-Part 1 (`C09Sites.lean`): every panic-capable expression the extractor finds in the functions
+Part 1 (`C09Sites.lean`, self-discharging: `C09_all_sites`): every panic-capable expression the extractor finds in the functions
 reachable from the memberlist delegates (reachability computed from the source) is safe under the
 path condition derived from the source (`C09_all_sites`).
 
@@ -50,21 +50,21 @@ theorem bufferStep_ok (sd si si2 : String) (buf : List (Option Nat)) (minT clock
     · have hne : ¬ buf.length = 0 := by omega
       -- both index obligations are the generated sites, instantiated at the actual lengths
       have hidx : lt % buf.length < buf.length :=
-        C09_site_Serf_handleUserEvent_index_s_eventBuffer_idx buf.length clock lt (lt % buf.length) minT h1 h2 rfl hpos
+        (site! site_Serf_handleUserEvent_index_1) _ _ _ _ _ h1 h2 rfl hpos
       have hget : buf[lt % buf.length]? = some (buf[lt % buf.length]) := by simp [hidx]
       simp only [h1, h2, hne, if_false, hget]
       cases buf[lt % buf.length] with
       | none =>
         have hidx2 : lt % buf.length < buf.length :=
-          C09_site_Serf_handleUserEvent_index_s_eventBuffer_idx_2 buf.length 0 clock lt (lt % buf.length) minT 0 h1 h2 rfl
-            (by simp) hpos
+          (site! site_Serf_handleUserEvent_index_2) _ _ _ _ _ _ _ h1 h2 rfl
+            (show ¬ ((0 : Nat) ≠ 0 ∧ (0 : Nat) = lt) by simp) hpos
         exact ⟨buf.set (lt % buf.length) (some lt), true, by simp [hidx2], by simp⟩
       | some t =>
         by_cases ht : t = lt
         · exact ⟨buf, true, by simp [ht], rfl⟩
         · have hidx2 : lt % buf.length < buf.length :=
-            C09_site_Serf_handleUserEvent_index_s_eventBuffer_idx_2 buf.length 1 clock lt (lt % buf.length) minT t h1 h2 rfl
-              (by intro h; exact ht h.2) hpos
+            (site! site_Serf_handleUserEvent_index_2) _ _ _ _ _ _ _ h1 h2 rfl
+              (show ¬ ((1 : Nat) ≠ 0 ∧ t = lt) from fun h => ht h.2) hpos
           exact ⟨buf.set (lt % buf.length) (some lt), true, by simp [ht, hidx2], by simp⟩
 
 theorem shouldProcess_ok (d : Dec) : ∀ fs : List (List Nat), ∃ b, shouldProcess d fs = .val b := by
@@ -76,8 +76,8 @@ theorem shouldProcess_ok (d : Dec) : ∀ fs : List (List Nat), ∃ b, shouldProc
     by_cases h0 : f.length = 0
     · exact ⟨false, by simp [h0]⟩
     · -- filter[0] and filter[1:] are in bounds by the generated sites
-      have hpos : 0 < f.length := C09_site_Serf_shouldProcessQuery_index_filter_0 f.length h0
-      have hs : 1 ≤ f.length := (C09_site_Serf_shouldProcessQuery_slice_filter_1 f.length h0).1
+      have hpos : 0 < f.length := (site! site_Serf_shouldProcessQuery_index_1) f.length h0
+      have hs : 1 ≤ f.length := ((site! site_Serf_shouldProcessQuery_slice_1) f.length h0).1
       obtain ⟨t, ht⟩ := getElem0 f hpos
       simp only [h0, if_false, ht, slice1_ok _ f hs]
       obtain ⟨b, hb⟩ := ih
@@ -102,7 +102,7 @@ theorem keyHandler_ok (site : String) (d : Dec) (p : List Nat) : ∀ s, keyHandl
   unfold keyHandler
   by_cases h : p.length < 1
   · simp [h]
-  · have hs : 1 ≤ p.length := (C09_site_serfQueries_handleInstallKey_slice_q_Payload_1 p.length h).1
+  · have hs : 1 ≤ p.length := ((site! site_serfQueries_handleInstallKey_slice_1) p.length h).1
     simp only [h, if_false, slice1_ok _ p hs]
     cases d.keyRequest (p.drop 1) <;> simp
 
@@ -131,8 +131,8 @@ theorem internalQuery_ok (d : Dec) (q : Query) : ∀ s, internalQuery d q ≠ .p
 
 theorem handleUserEvent_ok (cfg : Cfg) (st : State) (lt : Nat) (h : WF cfg st) :
     (∀ s, (handleUserEvent st lt).2 ≠ .panic s) ∧ WF cfg (handleUserEvent st lt).1 := by
-  obtain ⟨b', f, hb, hl⟩ := bufferStep_ok "site_Serf_handleUserEvent_div_LamportTime_len_s_eventBuffer"
-    "site_Serf_handleUserEvent_index_s_eventBuffer_idx" "site_Serf_handleUserEvent_index_s_eventBuffer_idx_2"
+  obtain ⟨b', f, hb, hl⟩ := bufferStep_ok "site_Serf_handleUserEvent_div_1"
+    "site_Serf_handleUserEvent_index_1" "site_Serf_handleUserEvent_index_2"
     st.eventBuf st.eventMin (witness st.eventClock lt) lt (by rw [h.2.2.1]; exact h.1)
   unfold handleUserEvent
   simp only [hb]
@@ -140,8 +140,8 @@ theorem handleUserEvent_ok (cfg : Cfg) (st : State) (lt : Nat) (h : WF cfg st) :
 
 theorem handleQuery_ok (cfg : Cfg) (d : Dec) (st : State) (q : Query) (h : WF cfg st) :
     (∀ s, (handleQuery d st q).2 ≠ .panic s) ∧ WF cfg (handleQuery d st q).1 := by
-  obtain ⟨b', f, hb, hl⟩ := bufferStep_ok "site_Serf_handleQuery_div_LamportTime_len_s_queryBuffer"
-    "site_Serf_handleQuery_index_s_queryBuffer_idx" "site_Serf_handleQuery_index_s_queryBuffer_idx_2"
+  obtain ⟨b', f, hb, hl⟩ := bufferStep_ok "site_Serf_handleQuery_div_1"
+    "site_Serf_handleQuery_index_1" "site_Serf_handleQuery_index_2"
     st.queryBuf st.queryMin (witness st.queryClock q.ltime) q.ltime (by rw [h.2.2.2.1]; exact h.2.1)
   unfold handleQuery
   simp only [hb]
@@ -165,8 +165,8 @@ theorem handleQuery_ok (cfg : Cfg) (d : Dec) (st : State) (q : Query) (h : WF cf
 only on a channel that is not closed — both from the generated site obligations. -/
 theorem sendAck_ok (q : OpenQuery) (sc : Sched) (h : q.WF) : ∀ s, sendAck q sc ≠ .panic s := by
   intro s
-  have hmap := C09_site_QueryResponse_sendAck_mapwrite_r_acks q.ackCh.toNat q.acksMap.toNat
-  have hsend := C09_site_QueryResponse_sendAck_send_r_ackCh q.chClosed.toNat q.closed.toNat
+  have hmap := (site! site_QueryResponse_sendAck_mapwrite_1) q.ackCh.toNat q.acksMap.toNat
+  have hsend := (site! site_QueryResponse_sendAck_send_1) q.closed.toNat q.chClosed.toNat
   obtain ⟨h1, _, h3⟩ := h
   unfold sendAck
   cases hc : q.closed <;> cases ha : q.ackCh <;> cases hk : q.chClosed <;> cases hm : q.acksMap <;> cases sc.space <;>
@@ -174,8 +174,8 @@ theorem sendAck_ok (q : OpenQuery) (sc : Sched) (h : q.WF) : ∀ s, sendAck q sc
 
 theorem sendResponse_ok (q : OpenQuery) (sc : Sched) (h : q.WF) : ∀ s, sendResponse q sc ≠ .panic s := by
   intro s
-  have hmap := C09_site_QueryResponse_sendResponse_mapwrite_r_responses q.responsesMap.toNat
-  have hsend := C09_site_QueryResponse_sendResponse_send_r_respCh q.chClosed.toNat q.closed.toNat
+  have hmap := (site! site_QueryResponse_sendResponse_mapwrite_1) q.responsesMap.toNat
+  have hsend := (site! site_QueryResponse_sendResponse_send_1) q.closed.toNat q.chClosed.toNat
   obtain ⟨_, h2, h3⟩ := h
   unfold sendResponse
   cases hc : q.closed <;> cases hk : q.chClosed <;> cases hm : q.responsesMap <;> cases sc.space <;>
@@ -203,14 +203,14 @@ theorem notifyMsg_ok (cfg : Cfg) (d : Dec) (st : State) (buf : List Nat) (sc : S
   unfold notifyMsg
   by_cases h0 : buf.length = 0
   · simp [h0, h]
-  · have hpos : 0 < buf.length := C09_site_delegate_NotifyMsg_index_buf_0 buf.length h0
+  · have hpos : 0 < buf.length := (site! site_delegate_NotifyMsg_index_1) buf.length h0
     -- one slice obligation per branch of the switch (leave, join, user event, query, response, relay)
-    have hs1 := (C09_site_delegate_NotifyMsg_slice_buf_1 buf.length h0).1
-    have hs2 := (C09_site_delegate_NotifyMsg_slice_buf_1_2 buf.length h0).1
-    have hs3 := (C09_site_delegate_NotifyMsg_slice_buf_1_3 buf.length h0).1
-    have hs4 := (C09_site_delegate_NotifyMsg_slice_buf_1_4 buf.length h0).1
-    have hs5 := (C09_site_delegate_NotifyMsg_slice_buf_1_5 buf.length h0).1
-    have hs6 := (C09_site_delegate_NotifyMsg_slice_buf_1_6 buf.length h0).1
+    have hs1 := ((site! site_delegate_NotifyMsg_slice_1) buf.length h0).1
+    have hs2 := ((site! site_delegate_NotifyMsg_slice_2) buf.length h0).1
+    have hs3 := ((site! site_delegate_NotifyMsg_slice_3) buf.length h0).1
+    have hs4 := ((site! site_delegate_NotifyMsg_slice_4) buf.length h0).1
+    have hs5 := ((site! site_delegate_NotifyMsg_slice_5) buf.length h0).1
+    have hs6 := ((site! site_delegate_NotifyMsg_slice_6) buf.length h0).1
     obtain ⟨t, ht⟩ := getElem0 buf hpos
     simp only [h0, if_false, ht]
     split
@@ -262,8 +262,8 @@ theorem mergeRemoteState_ok (cfg : Cfg) (d : Dec) (st : State) (buf : List Nat) 
   unfold mergeRemoteState
   by_cases h0 : buf.length = 0
   · simp [h0, h]
-  · have hpos : 0 < buf.length := C09_site_delegate_MergeRemoteState_index_buf_0 buf.length h0
-    have hs : 1 ≤ buf.length := (C09_site_delegate_MergeRemoteState_slice_buf_1 buf.length h0).1
+  · have hpos : 0 < buf.length := (site! site_delegate_MergeRemoteState_index_1) buf.length h0
+    have hs : 1 ≤ buf.length := ((site! site_delegate_MergeRemoteState_slice_1) buf.length h0).1
     obtain ⟨t, ht⟩ := getElem0 buf hpos
     simp only [h0, if_false, ht]
     by_cases t2 : t = 2
@@ -278,8 +278,8 @@ theorem pingComplete_ok (cfg : Cfg) (d : Dec) (p : List Nat) : ∀ s, pingComple
   unfold pingComplete
   by_cases h0 : p.length = 0
   · simp [h0]
-  · have hpos : 0 < p.length := C09_site_pingDelegate_NotifyPingComplete_index_payload_0 p.length h0
-    have hs : 1 ≤ p.length := (C09_site_pingDelegate_NotifyPingComplete_slice_payload_1 p.length h0).1
+  · have hpos : 0 < p.length := (site! site_pingDelegate_NotifyPingComplete_index_1) p.length h0
+    have hs : 1 ≤ p.length := ((site! site_pingDelegate_NotifyPingComplete_slice_1) p.length h0).1
     obtain ⟨v, hv⟩ := getElem0 p hpos
     simp only [h0, if_false, hv, slice1_ok _ p hs]
     split
@@ -293,13 +293,13 @@ theorem decodeTags_ok (d : Dec) (b : List Nat) : ∀ s, decodeTags d b ≠ .pani
   unfold decodeTags
   by_cases h0 : b.length = 0
   · simp [h0]
-  · have hpos : 0 < b.length := C09_site_Serf_decodeTags_index_buf_0 b.length h0
+  · have hpos : 0 < b.length := (site! site_Serf_decodeTags_index_1) b.length h0
     obtain ⟨x, hx⟩ := getElem0 b hpos
     simp only [h0, if_false, hx]
     by_cases hm : x ≠ 255
     · simp [hm]
     · -- the slice obligation under the negated short-circuit condition `len(buf) == 0 || buf[0] != magic`
-      have hs : 1 ≤ b.length := (C09_site_Serf_decodeTags_slice_buf_1 b.length x (by intro h; cases h with | inl h => exact h0 h | inr h => exact hm h)).1
+      have hs : 1 ≤ b.length := ((site! site_Serf_decodeTags_slice_1) b.length x (by intro h; cases h with | inl h => exact h0 h | inr h => exact hm h)).1
       simp only [hm, if_false, slice1_ok _ b hs]
       split <;> simp
 
@@ -319,12 +319,12 @@ theorem typedReply_ok (si ss : String) (typ : Nat) (dec : List Nat → Option Un
       split <;> simp
 
 theorem conflictReply_ok (d : Dec) (p : List Nat) : ∀ s, conflictReply d p ≠ .panic s :=
-  typedReply_ok _ _ 6 d.member p (C09_site_Serf_resolveNodeConflict_index_r_Payload_0 p.length)
-    (fun t => C09_site_Serf_resolveNodeConflict_slice_r_Payload_1 p.length t)
+  typedReply_ok _ _ 6 d.member p ((site! site_Serf_resolveNodeConflict_index_1) p.length)
+    (fun t => (site! site_Serf_resolveNodeConflict_slice_1) p.length t)
 
 theorem keyReply_ok (d : Dec) (p : List Nat) : ∀ s, keyReply d p ≠ .panic s :=
-  typedReply_ok _ _ 8 d.keyResponse p (C09_site_KeyManager_streamKeyResp_index_r_Payload_0 p.length)
-    (fun t => C09_site_KeyManager_streamKeyResp_slice_r_Payload_1 p.length t)
+  typedReply_ok _ _ 8 d.keyResponse p ((site! site_KeyManager_streamKeyResp_index_1) p.length)
+    (fun t => (site! site_KeyManager_streamKeyResp_slice_1) p.length t)
 
 /-- **C09, NotifyMsg.** For every byte string delivered to `NotifyMsg`, every decode oracle, every
 scheduling of the reply channel and every state satisfying the configuration preconditions, the
@@ -436,10 +436,10 @@ user event at Lamport time 2^64-1 divides by zero — `Witness` wraps the clock 
 test does not fire (replayed on the real code by the harness case `zerobuf`). -/
 theorem C09_buffer_precondition_necessary :
     (handleUserEvent { eventBuf := [], queryBuf := [] } (twoPow64 - 1)).2 =
-      .panic "site_Serf_handleUserEvent_div_LamportTime_len_s_eventBuffer" ∧
+      .panic "site_Serf_handleUserEvent_div_1" ∧
     (handleQuery rejectAll { eventBuf := [], queryBuf := [] }
         { ltime := twoPow64 - 1, id := 0, name := [], payload := [], filters := [], ack := false, noBroadcast := false }).2 =
-      .panic "site_Serf_handleQuery_div_LamportTime_len_s_queryBuffer" := by
+      .panic "site_Serf_handleQuery_div_1" := by
   constructor <;> decide
 
 /-- … and it is needed only there: below the top of the clock the witnessed time is always later than
@@ -470,7 +470,7 @@ theorem C09_empty_payload_unguarded_witness : slice1 "site" [] = .panic "site" :
 /-- without the open-query invariant (ack channel made ⇒ ack map made) the skeleton's map-write site
 is reachable: the shape of the seeded defect that records the sender before the select. -/
 theorem C09_ack_invariant_necessary :
-    sendAck { ltime := 1, id := 1, ackCh := true, acksMap := false } {} = .panic "site_QueryResponse_sendAck_mapwrite_r_acks" := by
+    sendAck { ltime := 1, id := 1, ackCh := true, acksMap := false } {} = .panic "site_QueryResponse_sendAck_mapwrite_1" := by
   decide
 
 end SerfProofs.C09
